@@ -252,11 +252,9 @@ func (r *rw) rewrite(f *ast.File) ([]byte, bool, error) {
 				switch r.pkgOf(se.X) {
 				case "time":
 					switch se.Sel.Name {
-					case "Sleep", "After", "Now", "Since", "Until", "AfterFunc", "NewTimer":
+					case "Sleep", "After", "Now", "Since", "Until", "AfterFunc", "NewTimer", "NewTicker", "Tick":
 						x.Fun = sel("vsched", se.Sel.Name)
 						r.changed = true
-					case "NewTicker", "Tick":
-						r.fail(x.Pos(), "time.%s is not modelled by vsched", se.Sel.Name)
 					}
 				case "math/rand":
 					switch se.Sel.Name {
@@ -293,7 +291,7 @@ func (r *rw) rewrite(f *ast.File) ([]byte, bool, error) {
 					r.fail(x.Pos(), "sync/atomic.%s is not modelled by vsched", n)
 				}
 			}
-			if r.pkgOf(x.X) == "time" && x.Sel.Name == "Timer" {
+			if r.pkgOf(x.X) == "time" && (x.Sel.Name == "Timer" || x.Sel.Name == "Ticker") {
 				x.X = ast.NewIdent("vsched")
 				r.changed = true
 			}
